@@ -177,6 +177,7 @@ STREAM(mt_module) {
   mt_case(out, rng, 64, 16, thorough ? 40 : 6, 0, 0);
   mt_case(out, rng, 16, 16, thorough ? 40 : 6, 0, 1);
   mt_case(out, rng, 256, 8, thorough ? 20 : 3, 0, 0);
+  mt_case(out, rng, 4096, 8, 1, 0, 0);  // large tables: anything built lazily on first use shows here
   // then the convenience API after its documented warm-up
   mt_case(out, rng, 64, 16, thorough ? 40 : 6, 1, 0);
   mt_case(out, rng, 32, 8, thorough ? 20 : 4, 1, 1);
